@@ -253,6 +253,9 @@ HETERO_NETS = [
     [([-1, 0, 0, 1], [2, 2, 2, 2]), ([-1, 0], [2, 2])],
     [([-1, 0, 0], [1, 1, 1]), ([-1], [1]), ([-1, 0, 1], [1, 1, 1])],
     [([-1, 0], [2, 2]), ([-1, 0, 0, 1], [2, 2, 2, 2])],
+    # cells that pad a level (unequal compartment counts among the branches of one level) and are NOT listed last: the padded
+    # slots of a cell shift every later cell (seeded change C12_e); per-level maxima agree, so the custom back ends accept them
+    [([-1, 0, 0], [2, 1, 3]), ([-1, 0, 0], [2, 3, 1])], [([-1, 0, 0], [1, 2, 1]), ([-1, 0], [1, 2]), ([-1, 0, 0], [1, 1, 2])],
     # sibling permutations with unequal compartment counts (the padded layout of a level must not depend on the order)
     [([-1, 0, 0], [2, 3, 1])], [([-1, 0, 0], [2, 1, 3])], [([-1, 0, 0, 0], [1, 3, 2, 1])], [([-1, 0, 0, 1, 1], [2, 1, 2, 3, 1])],
 ]
